@@ -299,15 +299,20 @@ def run_pin(rng, obs):
     if rng.random() < 0.5:
         k = rng.randint(1, n + 2)
         idx = sorted(rng.sample(range(n + 3), min(k, n + 3)))
+        order = rng.choice(['ascending', 'ascending', 'descending', 'shuffled'])   # each index keeps ITS target whatever the order of the selection
+        if order == 'descending': idx = idx[::-1]
+        elif order == 'shuffled': rng.shuffle(idx)
         if rng.random() < 0.6:
             target = rng.choice([0.0, 1.5, -99.0]); tv = {i: target for i in idx}
         else:
             target = [float(j) - 0.5 for j in range(len(idx))]; tv = dict(zip(idx, target))
-        f = impose_at(list(idx), target)(ident)
+        tgt = target
+        if isinstance(target, list) and rng.random() < 0.3: tgt = np.array(target)
+        f = impose_at(list(idx) if rng.random() < 0.7 else tuple(idx), tgt)(ident)
         xc, kind = as_container(rng, x)
         y = f(xc.copy() if kind == 'array' else list(xc))
         yl = tolist(y)
-        obs.desc = {'decorator': 'impose_at', 'index': idx, 'target': target, 'x': x, 'container': kind}
+        obs.desc = {'decorator': 'impose_at', 'index': idx, 'target': target, 'x': x, 'container': kind, 'order': order, 'target_type': type(tgt).__name__}
         same_type(obs, xc, y, kind, 'impose_at')
         obs.check(tolist(xc) == x, 'frame:input not modified', decorator='impose_at')
         sel = set(i for i in idx if i < n)
